@@ -63,6 +63,43 @@ def multi_order_check(sc, io):
     return res
 
 
+def overlap_cases(rng, n):
+    """two packages holding orders of ONE trade, both answered, both handlers inside their `with order.trade:` block at the same time
+    (real threads, held by the driver), released in either order"""
+    ok = livegen.CLEAN
+    cases = []
+    for _ in range(n):
+        kinds = rng.sample(["cancel", "update", "replace", "place"], 2)
+        steps = [["book", "OPEN"], ["txn", [["place", 0, 101, "BACK", 200, 500, None, False], ["place", 0, 101, "BACK", 300, 400, 0, False]]], ["deliver", 0, ok]]
+        reqs = []
+        for k, kind in enumerate(kinds):
+            if kind == "place":
+                reqs.append(["place", 0, 101, "BACK", 400, 400, 0, False])
+            else:
+                reqs.append(["req", kind, k, {"cancel": None, "update": "PERSIST", "replace": 400}[kind], False])
+        steps.append(["txn", reqs])
+        outc = lambda: rng.choice([ok, livegen.gen_outcome(rng, opts={"p_unknown": 0.0})])
+        steps += [["call", 0, dict(outc(), errors=0)], ["call", 0, dict(outc(), errors=0)], ["respond_hold", 0], ["respond_hold", 0]]
+        steps += [["respond", rng.randrange(2)], ["respond", 0]]
+        steps += [["drain", [ok]], ["stream", "full"], ["stream", "full"]]
+        cases.append({"strategies": 1, "steps": steps})
+    return cases
+
+
+def overlap_check(case, run):
+    bad = []
+    last = run[-1]
+    held = sum(1 for ob in run if isinstance(ob["res"], dict) and ob["res"].get("inside"))
+    for o in last["orders"]:
+        if o["trade_status"] == "Pending":
+            bad.append(("C12-trade-pending", "trade of %s is left Pending after two overlapping handlers of the same trade (trade log %s)" % (o["o"], o["trade_log"])))
+        if o["status"] in ("Cancelling", "Updating", "Replacing"):
+            bad.append(("C12-stranded", "order %s left %s after overlapping handlers" % (o["o"], o["status"])))
+        if all(x["complete"] for x in last["orders"] if x["trade"] == o["trade"]) and o["trade_status"] != "Complete":
+            bad.append(("C12-trade-pending", "every order of the trade of %s is complete but the trade is %s after overlapping handlers" % (o["o"], o["trade_status"])))
+    return bad, held
+
+
 def main():
     ck = Check(PID)
     rng = random.Random(seed())
@@ -103,6 +140,22 @@ def main():
     # simulated execution: whole-loop scenarios with requests whose latency window contains fills / lapses / removals
     scs = [simgen.gen_scenario(rng, {"kinds": ["L"] * 9 + ["LOC", "MOC"], "p_manage": 0.7, "p_susp": 0.25, "p_remove": 0.08}) for _ in range(600 if thorough else 150)]
     simcheck.run_family(ck, "simulated_execution", scs, c12_sim, "C12", "sim")
+    # overlapping handlers of one trade in real threads (implementation only: the model is atomic per handler)
+    ocs = overlap_cases(rng, 120 if thorough else 40)
+    oouts = run_impl_parallel("livelib", [{"job": "exec", "cases": ch} for ch in chunked(ocs, 8)], timeout=1800)
+    oimpl = [r for o in oouts for r in o["out"]]
+    opf, nheld = [], 0
+    for i, (c, r) in enumerate(zip(ocs, oimpl)):
+        b, h = overlap_check(c, r)
+        nheld += h
+        for key, desc in b:
+            opf.append((i, key, desc))
+    ck.family("overlapping_handlers_same_trade", len(ocs), len(ocs), [], sorted({i for i, *_ in opf}), dist={"handlers_held_inside_the_context_manager": nheld})
+    seen = set()
+    for i, key, desc in opf:
+        if key not in seen:
+            seen.add(key)
+            ck.fail(key, desc, {"case": ocs[i], "how": "harness/impl/livelib.py job 'exec' (respond_hold keeps a handler thread inside `with order.trade:`)"})
     # simulated execution, packages of 1-3 orders with one of them completed inside the latency window (implementation only: the
     # simulation model has one order per package)
     mscs = [multi_order_scenario(rng, kind, n, c) for kind in ("cancel", "update", "replace") for n in (1, 2, 3) for c in [None] + list(range(n))]
